@@ -155,6 +155,9 @@ def run(ctx):
               "c-str": dict(pulse_shape="gaussian", c="0"), "m-float": dict(pulse_shape="gaussian", m=1.5), "T-float": dict(pulse_shape="gaussian", T=8.0),
               "m-zero": dict(pulse_shape="gaussian", m=0), "m-neg": dict(pulse_shape="gaussian", m=-2), "T-zero": dict(pulse_shape="gaussian", T=0),
               "T-neg": dict(pulse_shape="gaussian", T=-3), "T-over-2sps": dict(pulse_shape="gaussian", T=17), "shape-unknown": dict(pulse_shape="sinc")}
+    # complex numbers (Python's and numpy's), tuples and arrays are wrongly typed amplitudes too
+    faults.update({"vout-complex": dict(Vout=1 + 1j), "bias-complex": dict(bias=2j), "vout-npcomplex": dict(Vout=np.complex128(3 + 4j)), "bias-npcomplex": dict(bias=np.complex128(1 + 0j)),
+                   "vout-npcomplex64": dict(Vout=np.complex64(2 + 1j)), "vout-tuple": dict(Vout=(2.0,)), "bias-ndarray": dict(bias=np.array([3.0])), "bias-list": dict(bias=[0.5])})
     for i_, nm in enumerate(["", "r", "z", "g", "gauss", "sian", "nrzz", "rzz", "tri", "n", "rec"]):
         faults[f"shape-unknown-{i_}"] = dict(pulse_shape=nm)
     with warnings.catch_warnings():
